@@ -341,6 +341,13 @@ func (s *StreamJoin) receiveRecord(ctx ExecutionContext, produce ProduceFn, myRe
 		}
 		key[i] = value
 	}
+	for i := range key {
+		if key[i].TypeID == octosql.TypeIDNull {
+			// Keys come from equality predicates, and SQL equality never matches NULL:
+			// this record can neither trigger nor be triggered by any other record.
+			return nil
+		}
+	}
 
 	if !oneStreamRemains {
 		// Update count in my record tree
